@@ -22,7 +22,7 @@ def instances(tier):
         out.append({"label": name, "cfg": {"poll": p, "ping_rate": r, "ping_timeout": t, "close_timeout": c, "auto_pong": True},
                     "module": sessprop.wrapper('Mon_C15', extra_defs=defs, suffix='_' + name),
                     "consts": dict(HttpItems='HttpOk', Items='C15Items', Cfg='CfgGen', MaxItems=2, ChunkMax=1,
-                                   MaxIdle=4, Dts={1} if q else {0, 1, p}, Reacts={"none", "close"},
+                                   MaxIdle=4 if q else 5, Dts={1}, Reacts={"none", "close"},
                                    ReactAt={"poll", "ready"}, MaxReacts=1)})
     return out
 
@@ -82,7 +82,7 @@ def run(tier, seed):
         rule='parameter grid (poll, ping_rate, ping_timeout, close_timeout incl. 0) x every history of {time-out, pong / text / close '
              'reply arriving after 0..poll ticks, EOF, permanent silence} on the virtual tick grid x application close at Ready or at '
              'any Poll; non-trivial = distinct timed event sequences with an automatic ping, Unresponsive or >= 3 polls',
-        nontrivial=nontrivial, anchors=anchors, variants=variants, sample_keys=('ev', 'wr'))
+        nontrivial=nontrivial, anchors=anchors, variants=variants, sample_keys=('ev', 'wr'), max_exec=None if tier == 'quick' else 2500)
     need = {'unresponsive', 'auto_ping', 'three_polls', 'pong', 'forced_disconnect', 'close_completed'}
     missing = sorted(need - seen)
     return r.finish(vacuous=('never exercised: %s' % missing) if missing else None)
